@@ -223,24 +223,31 @@ def check_worker_id(chk, rule: str, appended_ids: dict | None = None) -> None:
     cases = bad = 0
     sample = []
     reason = ""
+    all_params = [a.arg for a in add_fn.args.posonlyargs + add_fn.args.args + add_fn.args.kwonlyargs]
+    other_params = sorted({x.id for x in ast.walk(full) if isinstance(x, ast.Name) and x.id in all_params and x.id != state_param})
     try:
         for n in range(1, 5):
             for k in range(0, n):  # capacity test holds: fewer than n in progress
                 for used in itertools.combinations(range(n), k):
                     st = Record("InternalStepWorkerState", in_progress=[Record("InProgressState", worker_id=u) for u in used],
                                 config=Record("StepConfig", num_workers=n))
-                    cases += 1
-                    try:
-                        v = Interp({state_param: st}).eval(full, {state_param: st})
-                    except Raised as r:
-                        bad += 1
-                        reason = reason or f"num_workers={n}, in use {used}: raises {r}"
-                        continue
-                    if len(sample) < 4:
-                        sample.append({"num_workers": n, "in_use": list(used), "id": v})
-                    if not (isinstance(v, int) and 0 <= v < n and v not in used):
-                        bad += 1
-                        reason = reason or f"num_workers={n}, in use {used}: id expression gives {v!r}"
+                    # other parameters the id expression reads (an id hint handed in by the caller, …): the function's contract
+                    # is on the state alone, so the id must be free whatever such a parameter holds
+                    for extra in itertools.product([None] + list(range(n)), repeat=len(other_params)):
+                        env = {state_param: st, **dict(zip(other_params, extra))}
+                        cases += 1
+                        hint = f", {dict(zip(other_params, extra))}" if other_params else ""
+                        try:
+                            v = Interp(dict(env)).eval(full, dict(env))
+                        except Raised as r:
+                            bad += 1
+                            reason = reason or f"num_workers={n}, in use {used}{hint}: raises {r}"
+                            continue
+                        if len(sample) < 4:
+                            sample.append({"num_workers": n, "in_use": list(used), "id": v})
+                        if not (isinstance(v, int) and 0 <= v < n and v not in used):
+                            bad += 1
+                            reason = reason or f"num_workers={n}, in use {used}{hint}: id expression gives {v!r}"
     except Unsupported as e:
         raise AnchorError(f"{rule}: id expression `{ast.unparse(full)[:80]}` uses an unsupported construct: {e}")
     chk.ob(rule, f"worker id `{ast.unparse(full)[:90]}` ∈ [0,n) \\ in-use for all {cases} (n, in-use) combinations, n=1..4", bad == 0,
